@@ -800,8 +800,39 @@ def srange_factory(cap_table):
     return srange
 
 
+class SymSeq(list):
+    """A module-level numeric table (list/tuple of numbers built at import time) that can be indexed by a symbolic
+    integer: the lookup becomes an uninterpreted function of the index with one exact ground fact per entry
+    (the entries are the doubles the module computed; each denotes its rational value)."""
+
+    def __init__(self, items, name):
+        super().__init__(items)
+        self._name = name
+
+    def __getitem__(self, i):
+        if _isinstance(i, SNum):
+            if not i.is_int:
+                raise TypeError("list indices must be integers")
+            eng = cur()
+            n = len(self)
+            if eng.branch(z3.Or(i.t < -n, i.t >= n)):
+                raise IndexError("list index out of range")
+            vals = list(self)
+
+            def table_fn(xv, vals=vals, n=n):
+                k = _int(xv)
+                f = frac_of(vals[k if k >= 0 else k + n])
+                return (f, f)
+
+            return eng.uf("tab_" + self._name, [i], table_fn=table_fn)
+        return super().__getitem__(i)
+
+
 def inject(module, caps=None, extra=None):
     """Shadow builtins in ``module``'s namespace (only there) with symbolic-aware ones."""
+    for gname, gval in list(vars(module).items()):
+        if type(gval) in (list, tuple) and 16 <= len(gval) <= 4096 and all(type(x) in (_int, _float) for x in gval):
+            setattr(module, gname, SymSeq(gval, "%s_%s" % (module.__name__.rsplit(".", 1)[-1], gname.strip("_"))))
     module.int = SymInt
     module.float = SymFloat
     module.max = smax
